@@ -690,7 +690,11 @@ func (x *Exec) nameLookup(fr *Frame, st *State, b *ssa.BasicBlock) func(string) 
 // nameLookupSkip: like nameLookup, but ignores the first `skip` loop-carried (phi) definitions of the name found on the
 // dominator chain: outer(rangeindex) in an inner loop names the index of the enclosing loop.
 func (x *Exec) nameLookupSkip(fr *Frame, st *State, b *ssa.BasicBlock, skip int) func(string) (EV, bool) {
+	ren := x.prog.renamesFor(fr.fn)
 	return func(name string) (EV, bool) {
+		if nn, ok := ren[name]; ok {
+			name = nn
+		}
 		skipLeft := skip
 		// params
 		for i, p := range fr.fn.Params {
@@ -778,6 +782,74 @@ func (x *Exec) nameLookupSkip(fr *Frame, st *State, b *ssa.BasicBlock, skip int)
 				}
 			}
 		}
+		// range loops: at the header of `for name := range s` (or `for name, v := range s`) the key variable is not
+		// loop-carried in SSA - the hidden counter `rangeindex` (last index visited, -1 before the first iteration) is.
+		// An invariant written over the key, as for `for name := 0; name < len(s); name++`, means rangeindex+1 there.
+		for _, ins := range b.Instrs {
+			phi, isPhi := ins.(*ssa.Phi)
+			if !isPhi {
+				break
+			}
+			if phi.Comment != "rangeindex" {
+				continue
+			}
+			pv, has := fr.env[phi]
+			if !has {
+				continue
+			}
+			for _, blk := range fr.fn.Blocks {
+				for _, in := range blk.Instrs {
+					dr, ok := in.(*ssa.DebugRef)
+					if !ok || dr.Object() == nil || dr.Object().Name() != name || dr.IsAddr {
+						continue
+					}
+					bo, isBin := dr.X.(*ssa.BinOp)
+					if !isBin || bo.Op != token.ADD || bo.X != phi || bo.Block() != b {
+						continue
+					}
+					if c, isC := bo.Y.(*ssa.Const); !isC || c.Value == nil || c.Int64() != 1 {
+						continue
+					}
+					if t, isT := pv.(*Term); isT {
+						return EV{V: x.tb.BVBin("bvadd", t, x.tb.BVi(t.sort.W, 1)), T: phi.Type()}, true
+					}
+				}
+			}
+		}
+		// the converse: a contract written for a range loop (over `rangeindex`) applied to the counting loop
+		// `for i := 0; i < n; i++` it was rewritten into: rangeindex means i-1 for the unique counter phi of the header.
+		if name == "rangeindex" {
+			var cand *ssa.Phi
+			n := 0
+			for _, ins := range b.Instrs {
+				phi, isPhi := ins.(*ssa.Phi)
+				if !isPhi {
+					break
+				}
+				isCounter, fromZero := false, false
+				for _, e := range phi.Edges {
+					if c, isC := e.(*ssa.Const); isC && c.Value != nil && c.Int64() == 0 {
+						fromZero = true
+					}
+					if bo, isBin := e.(*ssa.BinOp); isBin && bo.Op == token.ADD && bo.X == phi {
+						if c, isC := bo.Y.(*ssa.Const); isC && c.Value != nil && c.Int64() == 1 {
+							isCounter = true
+						}
+					}
+				}
+				if isCounter && fromZero && len(phi.Edges) == 2 {
+					cand = phi
+					n++
+				}
+			}
+			if n == 1 {
+				if pv, has := fr.env[cand]; has {
+					if t, isT := pv.(*Term); isT {
+						return EV{V: x.tb.BVBin("bvsub", t, x.tb.BVi(t.sort.W, 1)), T: cand.Type()}, true
+					}
+				}
+			}
+		}
 		// fallback: a reference to the variable in a block that does not dominate this one, to a value whose definition
 		// does (the variable is not loop-carried here, otherwise a phi of this block would have matched above)
 		for _, blk := range fr.fn.Blocks {
@@ -813,6 +885,9 @@ func (x *Exec) loopCtx(fr *Frame, b *ssa.BasicBlock, st *State, prove bool) *Eva
 	ec.lookup = x.nameLookup(fr, st, b)
 	ec.lookupOuter = x.nameLookupSkip(fr, st, b, 1)
 	ec.lookupAddr = func(name string) (*PtrV, bool) {
+		if nn, ok := x.prog.renamesFor(fr.fn)[name]; ok {
+			name = nn
+		}
 		for blk := b; blk != nil; blk = blk.Idom() {
 			for _, ins := range blk.Instrs {
 				if a, ok := ins.(*ssa.Alloc); ok && a.Comment == name {
